@@ -116,6 +116,30 @@ def to_coq(ir):
     return '[' + '; '.join(out) + ']'
 
 
+def worker_move(oh):
+    """moveToOwnThread(): is `m_worker->moveToThread(m_thread)` an unconditional statement of the function body (WMAlways),
+    nested in the `if (qApp)` block (WMIfApp), or absent / under any other condition (WMNever: nothing is claimed then)?"""
+    m = need(re.search(r'&\s*moveToOwnThread\s*\(\s*\)\s*\{', oh), 'OwnThreadHandler::moveToOwnThread')
+    i, depth, conds, body = m.end(), 1, [], ''
+    start = i
+    while i < len(oh) and depth > 0:
+        c = oh[i]
+        if c == '{':
+            head = oh[start:i].strip().split(';')[-1].strip()
+            conds.append(head); depth += 1; start = i + 1
+        elif c == '}':
+            depth -= 1; conds and conds.pop(); start = i + 1
+        elif oh.startswith('m_worker->moveToThread(m_thread)', i):
+            if not conds:
+                # unconditional only if no return precedes it other than the early `if (m_thread) return *this;`
+                return 'WMAlways'
+            if len(conds) == 1 and re.fullmatch(r'if\s*\(\s*qApp\s*\)', conds[0]):
+                return 'WMIfApp'
+            return 'WMNever'
+        i += 1
+    return 'WMNever'
+
+
 def generate():
     oh = strip_comments(rd('ownthreadhandler.h'))
     m = need(re.search(r'bool\s+process\s*\(\s*LogMessage\s*&', oh), 'OwnThreadHandler::process')
@@ -127,6 +151,7 @@ def generate():
          'LogEvent constructor copies the message')
     need(re.search(r'\n\s*LogMessage\s+lmsg\s*;', oh), 'LogEvent holds the LogMessage by value')
     need(re.search(r'm_worker->moveToThread\(m_thread\)', oh), 'the worker object lives in the own thread')
+    wmove = worker_move(oh)
     # Logger::processMessage: the fatal branch may flush the sinks from the calling thread only while no own thread runs
     lg = strip_comments(rd('logger.cpp'))
     pm = walk(lg, 'Logger::processMessage', 'Logger::processMessage', view='async', guards='take')
@@ -144,4 +169,6 @@ def generate():
     out += 'Definition src_caller_flushes_while_worker_runs : bool := %s.\n' % ('true' if flush_when_running(pm) else 'false')
     out += '(* PatternFormatter, TimeToken::appendToString: the clock read by %{time process} / %{time boot} *)\n'
     out += 'Definition src_time_process : tsrc := %s.\nDefinition src_time_boot : tsrc := %s.\n' % (ts['process'], ts['boot'])
+    out += '(* moveToOwnThread(): under which condition the worker object is given the affinity of the own thread *)\n'
+    out += 'Definition src_worker_move : wmove := %s.\n' % wmove
     return {'SrcAsync.v': out}
